@@ -1,73 +1,11 @@
 /-
-  Lemmas/TextInteger — integer `to_hex` ↔ `parse`, and the decimal / hexadecimal scanners of `parse`.
+  Lemmas/TextInteger — integer `to_hex` ↔ `parse`, and the decimal / hexadecimal scanners of `parse`
+  (the hexadecimal scanner as repaired: ⌈nbits/8⌉ bytes, clipped top byte, scan up to the sign).
 -/
 import UVerifProofs.Lemmas.TextPosit
 import UVerif.Model.TextInteger
 
 namespace UVerif.Text
-
-theorem two_pow_eight_mul (j : Nat) : (2 : Nat) ^ (8 * j) = 16 ^ (2 * j) := by
-  rw [show 8 * j = 4 * (2 * j) by omega, Nat.pow_mul]
-
-/-- storing the byte made of nibbles `2j` and `2j+1` of `v` on top of the low `j` bytes of `v`. -/
-theorem setByte_low (v j : Nat) :
-    setByte (v % 2 ^ (8 * j)) j (v / 16 ^ (2 * j) % 16 + v / 16 ^ (2 * j + 1) % 16 * 16) = v % 2 ^ (8 * (j + 1)) := by
-  unfold setByte
-  have hP : 0 < 2 ^ (8 * j) := Nat.two_pow_pos _
-  have e1 : (2 : Nat) ^ (8 * j + 8) = 2 ^ (8 * j) * 256 := by rw [Nat.pow_add]
-  have e2 : 16 ^ (2 * j) = 2 ^ (8 * j) := (two_pow_eight_mul j).symm
-  have e3 : 16 ^ (2 * j + 1) = 2 ^ (8 * j) * 16 := by rw [Nat.pow_succ, e2]
-  rw [show 8 * (j + 1) = 8 * j + 8 by omega, e1, e2, e3]
-  generalize 2 ^ (8 * j) = P at *
-  have hw : v % P < P := Nat.mod_lt _ hP
-  have h1 : v % P % P = v % P := Nat.mod_eq_of_lt hw
-  have h2 : v % P / (P * 256) = 0 := Nat.div_eq_of_lt (by nlinarith)
-  have h3 : v / (P * 16) = v / P / 16 := by rw [Nat.div_div_eq_div_mul]
-  rw [h1, h2, h3, Nat.mod_mul]
-  generalize v / P = X
-  have hb : (X % 16 + X / 16 % 16 * 16) % 256 = X % 256 := by omega
-  rw [hb]
-  ring
-
-theorem reverse_hexDigits_succ (v k : Nat) : (hexDigits v (k + 1)).reverse = (hexDigits v k).reverse ++ [v / 16 ^ k % 16] := by
-  simp [hexDigits]
-
-/-- the hexadecimal scanner over the `2j` low nibbles (as produced by `to_hex`), `j ≤ nbits/8` whole bytes. -/
-theorem intHexLoop_bytes (n mb v : Nat) :
-    ∀ (j : Nat) (rest : List Char) (byte0 : Nat), j ≤ mb →
-      ∃ byte', intHexLoop n mb (((hexDigits v (2 * j)).map hexUpperChar).reverse ++ rest) byte0 0 false 0
-        = intHexLoop n mb rest byte' j false (v % 2 ^ (8 * j))
-  | 0, rest, byte0, _ => ⟨byte0, by simp [hexDigits, Nat.mod_one]⟩
-  | j + 1, rest, byte0, hj => by
-    have hlt : j < mb := by omega
-    have hd0 : v / 16 ^ (2 * j) % 16 < 16 := Nat.mod_lt _ (by decide)
-    have hd1 : v / 16 ^ (2 * j + 1) % 16 < 16 := Nat.mod_lt _ (by decide)
-    obtain ⟨b', hb'⟩ := intHexLoop_bytes n mb v j
-      (hexUpperChar (v / 16 ^ (2 * j) % 16) :: hexUpperChar (v / 16 ^ (2 * j + 1) % 16) :: rest) byte0 (by omega)
-    refine ⟨v / 16 ^ (2 * j) % 16 + v / 16 ^ (2 * j + 1) % 16 * 16, ?_⟩
-    have hlist : ((hexDigits v (2 * (j + 1))).map hexUpperChar).reverse ++ rest
-        = ((hexDigits v (2 * j)).map hexUpperChar).reverse ++
-            (hexUpperChar (v / 16 ^ (2 * j) % 16) :: hexUpperChar (v / 16 ^ (2 * j + 1) % 16) :: rest) := by
-      rw [show 2 * (j + 1) = 2 * j + 1 + 1 by omega]
-      simp [hexDigits]
-    rw [hlist, hb']
-    -- first nibble of the byte
-    rw [intHexLoop]
-    have hnlt : ¬ (j ≥ mb) := by omega
-    simp only [hnlt, if_false, hexUpperChar_ne_tick _ hd0, (hexUpperChar_ne_x _ hd0).1, (hexUpperChar_ne_x _ hd0).2,
-      or_self, hexVal_hexUpperChar _ hd0, Option.getD_some, Bool.false_eq_true]
-    -- second nibble completes it
-    rw [intHexLoop]
-    simp only [hnlt, if_false, hexUpperChar_ne_tick _ hd1, (hexUpperChar_ne_x _ hd1).1, (hexUpperChar_ne_x _ hd1).2,
-      or_self, hexVal_hexUpperChar _ hd1, Option.getD_some, if_true]
-    rw [setByte_low]
-
-/-- once `nbits/8` bytes are complete the scanner stops, whatever follows. -/
-theorem intHexLoop_full (n mb : Nat) (rest : List Char) (byte value : Nat) (odd : Bool) :
-    intHexLoop n mb rest byte mb odd value = (value, true) := by
-  cases rest with
-  | nil => rfl
-  | cons c cs => rw [intHexLoop]; simp
 
 theorem integerForm_toHex (H : List Char) (hne : H ≠ []) (hH : ∀ c ∈ H, isHexDigit c = true) :
     integerForm ('0' :: 'x' :: H) = .hex := by
@@ -78,34 +16,6 @@ theorem integerForm_toHex (H : List Char) (hne : H ≠ []) (hH : ∀ c ∈ H, is
     allB_of_forall _ H (fun c hc => by simp [hH c hc])
   have hemp : H.isEmpty = false := by cases H <;> simp_all
   simp [hall, hemp]
-
-/-- **integer hex round trip**: `parse(to_hex(x)) = x` whenever the width is a whole number of bytes. -/
-theorem integerParse_toHex (n v : Nat) (h8 : 8 ∣ n) (hn : 0 < n) (hv : v < 2 ^ n) :
-    integerParse n (integerToHex n v) = some v := by
-  obtain ⟨j, rfl⟩ := h8
-  have hj : 1 ≤ j := by omega
-  have hnib : 1 + (8 * j - 1) / 4 = 2 * j := by omega
-  unfold integerToHex
-  rw [Nat.mod_eq_of_lt hv, hnib]
-  simp only [List.cons_append, List.nil_append]
-  have hH : ∀ c ∈ (hexDigits v (2 * j)).map hexUpperChar, isHexDigit c = true := by
-    intro c hc
-    obtain ⟨d, hd, rfl⟩ := List.mem_map.mp hc
-    exact isHexDigit_hexUpperChar d (hexDigits_lt v _ d hd)
-  have hne : (hexDigits v (2 * j)).map hexUpperChar ≠ [] := by
-    intro h
-    have := congrArg List.length h
-    simp [length_hexDigits] at this
-    omega
-  unfold integerParse
-  rw [integerForm_toHex _ hne hH]
-  simp only
-  have hrev : ('0' :: 'x' :: (hexDigits v (2 * j)).map hexUpperChar).reverse
-      = ((hexDigits v (2 * j)).map hexUpperChar).reverse ++ ['x', '0'] := by simp
-  rw [hrev, show 8 * j / 8 = j by omega]
-  obtain ⟨b', hb'⟩ := intHexLoop_bytes (8 * j) j v j ['x', '0'] 0 (Nat.le_refl _)
-  rw [hb', intHexLoop_full]
-  simp [Nat.mod_eq_of_lt hv]
 
 
 /-! ### the decimal scanner -/
@@ -237,85 +147,131 @@ theorem isHexDigit_facts (c : Char) (h : isHexDigit c = true) :
     | none => simp [hx] at h
     | some d => simpa using hexVal_lt c d hx
 
-theorem setByte_fresh (value idx b : Nat) (hv' : value < 2 ^ (8 * idx)) (hb : b < 256) :
-    setByte value idx b = value + b * 2 ^ (8 * idx) := by
+/-- storing into a byte position above everything written so far: the (clipped) byte is simply added. -/
+theorem setByte_fresh (n value idx b : Nat) (hv' : value < 2 ^ (8 * idx)) :
+    setByte n value idx b = value + b % 2 ^ (min (8 * idx + 8) n - 8 * idx) * 2 ^ (8 * idx) := by
   unfold setByte
-  have hP : 0 < 2 ^ (8 * idx) := Nat.two_pow_pos _
-  have e1 : (2 : Nat) ^ (8 * idx + 8) = 2 ^ (8 * idx) * 256 := by rw [Nat.pow_add]
-  rw [e1]
-  generalize 2 ^ (8 * idx) = P at *
-  rw [Nat.mod_eq_of_lt hv', Nat.mod_eq_of_lt hb, Nat.div_eq_of_lt (by nlinarith)]
+  simp only
+  generalize min (8 * idx + 8) n - 8 * idx = cnt
+  have hle : (2 : Nat) ^ (8 * idx) ≤ 2 ^ (8 * idx + cnt) := Nat.pow_le_pow_right (by decide) (by omega)
+  rw [Nat.mod_eq_of_lt hv', Nat.div_eq_of_lt (by omega)]
   simp
 
-theorem intHexLoop_general (n mb : Nat) :
+/-- a byte clipped at the width is the byte reduced to the bits that are left. -/
+theorem byte_clip (b lo n : Nat) (hb : b < 256) : b % 2 ^ (min (lo + 8) n - lo) = b % 2 ^ (n - lo) := by
+  by_cases h : lo + 8 ≤ n
+  · rw [Nat.min_eq_left h, show lo + 8 - lo = 8 by omega]
+    have : (2 : Nat) ^ 8 ≤ 2 ^ (n - lo) := Nat.pow_le_pow_right (by decide) (by omega)
+    rw [Nat.mod_eq_of_lt (by omega), Nat.mod_eq_of_lt (by omega)]
+  · rw [Nat.min_eq_right (by omega)]
+
+/-- the guarded store of the repaired scanner (`if (byteIndex < maxByteIndex) setbyte(…)`, maxByteIndex = ⌈n/8⌉):
+    whatever the index, the byte contributes exactly its bits below the width. -/
+theorem store_byte (n value idx b : Nat) (hv' : value < 2 ^ (8 * idx)) (hb : b < 256) :
+    (if idx < (n + 7) / 8 then setByte n value idx b else value) = value + b % 2 ^ (n - 8 * idx) * 2 ^ (8 * idx) := by
+  by_cases h : idx < (n + 7) / 8
+  · rw [if_pos h, setByte_fresh n value idx b hv', byte_clip b (8 * idx) n hb]
+  · rw [if_neg h, show n - 8 * idx = 0 by omega]
+    simp [Nat.mod_one]
+
+/-- what the scanner does after the `x`: the obligatory `0`, then nothing / `+` / `-`. -/
+def hexTail (n : Nat) (cs : List Char) (value : Nat) : Nat × Bool :=
+  match cs with
+  | '0' :: rest =>
+    match rest with
+    | [] => (value, true)
+    | '+' :: _ => (value, true)
+    | '-' :: _ => (negN n value, true)
+    | _ => (value, false)
+  | _ => (value, false)
+
+theorem intHexLoop_x (n mb : Nat) (cs : List Char) (byte idx value : Nat) :
+    intHexLoop n mb ('x' :: cs) byte idx false value = hexTail n cs value := by
+  rw [intHexLoop]
+  simp only [show ('x' : Char) ≠ '\'' by decide, if_false, true_or, if_true, Bool.false_eq_true, false_and]
+  rfl
+
+theorem intHexLoop_x_odd (n mb : Nat) (cs : List Char) (byte idx value : Nat) :
+    intHexLoop n mb ('x' :: cs) byte idx true value
+      = hexTail n cs (if idx < mb then setByte n value idx byte else value) := by
+  rw [intHexLoop]
+  simp only [show ('x' : Char) ≠ '\'' by decide, if_false, true_or, if_true, true_and]
+  rfl
+
+/-- the repaired hexadecimal scanner over ANY run of hex digits (least significant first) followed by `x0` and
+    the sign part: every digit below the width is stored, the rest is skipped, and the scan always reaches the `x`. -/
+theorem intHexLoop_general (n : Nat) (tail : List Char) :
     ∀ (k : Nat) (C : List Char), C.length ≤ k → (∀ c ∈ C, isHexDigit c = true) →
-      ∀ (idx value byte : Nat), idx ≤ mb → value < 2 ^ (8 * idx) →
-        intHexLoop n mb (C ++ ['x', '0']) byte idx false value
-          = (value + leHex C % 2 ^ (8 * (mb - idx)) * 2 ^ (8 * idx), true) := by
+      ∀ (idx value byte : Nat), value < 2 ^ (8 * idx) →
+        intHexLoop n ((n + 7) / 8) (C ++ 'x' :: tail) byte idx false value
+          = hexTail n tail (value + leHex C % 2 ^ (n - 8 * idx) * 2 ^ (8 * idx)) := by
   intro k
   induction k with
   | zero =>
-    intro C hk _ idx value byte hidx hval
+    intro C hk _ idx value byte _
     have : C = [] := List.length_eq_zero_iff.mp (by omega)
     subst this
-    by_cases hfull : idx = mb
-    · subst hfull
-      simp [intHexLoop, leHex]
-    · have hlt : ¬ (idx ≥ mb) := by omega
-      simp [intHexLoop, hlt, leHex]
+    simp [intHexLoop_x, leHex]
   | succ k ih =>
-    intro C hk hC idx value byte hidx hval
-    by_cases hfull : idx = mb
-    · subst hfull
-      have : C ++ ['x', '0'] = (C ++ ['x', '0']).head (by simp) :: (C ++ ['x', '0']).tail := by simp
-      rw [this, intHexLoop]
-      simp [Nat.mod_one]
-    · have hlt : ¬ (idx ≥ mb) := by omega
-      match C, hk, hC with
-      | [], _, _ => simp [intHexLoop, hlt, leHex]
-      | [c], _, hC =>
-        obtain ⟨h1, h2, h3, h4, h5⟩ := isHexDigit_facts c (hC c (List.mem_cons_self ..))
-        simp only [List.cons_append, List.nil_append]
-        rw [intHexLoop]
-        simp only [hlt, if_false, h1, h2, h3, or_self, h4, Option.getD_some, Bool.false_eq_true]
-        rw [intHexLoop]
-        simp only [hlt, if_false, show ('x' : Char) ≠ '\'' by decide, true_or, if_true]
-        rw [setByte_fresh value idx (hv c) hval (by omega)]
-        have hM : hv c < 2 ^ (8 * (mb - idx)) := by
-          have : (2 : Nat) ^ 8 ≤ 2 ^ (8 * (mb - idx)) := Nat.pow_le_pow_right (by decide) (by omega)
-          omega
-        simp [leHex, Nat.mod_eq_of_lt hM]
-      | c0 :: c1 :: C', hk, hC =>
-        obtain ⟨a1, a2, a3, a4, a5⟩ := isHexDigit_facts c0 (hC c0 (List.mem_cons_self ..))
-        obtain ⟨b1, b2, b3, b4, b5⟩ := isHexDigit_facts c1 (hC c1 (List.mem_cons_of_mem _ (List.mem_cons_self ..)))
-        simp only [List.cons_append]
-        rw [intHexLoop]
-        simp only [hlt, if_false, a1, a2, a3, or_self, a4, Option.getD_some, Bool.false_eq_true]
-        rw [intHexLoop]
-        simp only [hlt, if_false, b1, b2, b3, or_self, b4, Option.getD_some, if_true]
-        have hbyte : hv c0 + hv c1 * 16 < 256 := by omega
-        rw [setByte_fresh value idx _ hval hbyte]
-        have hval' : value + (hv c0 + hv c1 * 16) * 2 ^ (8 * idx) < 2 ^ (8 * (idx + 1)) := by
-          rw [show 8 * (idx + 1) = 8 * idx + 8 by omega, Nat.pow_add]
-          generalize 2 ^ (8 * idx) = P at *
-          nlinarith
-        rw [ih C' (by simp at hk; omega) (fun c hc => hC c (List.mem_cons_of_mem _ (List.mem_cons_of_mem _ hc)))
-          (idx + 1) _ _ (by omega) hval']
-        congr 1
-        have hM : (2 : Nat) ^ (8 * (mb - idx)) = 256 * 2 ^ (8 * (mb - (idx + 1))) := by
-          rw [show 8 * (mb - idx) = 8 + 8 * (mb - (idx + 1)) by omega, Nat.pow_add]
-        have hP : (2 : Nat) ^ (8 * (idx + 1)) = 2 ^ (8 * idx) * 256 := by
-          rw [show 8 * (idx + 1) = 8 * idx + 8 by omega, Nat.pow_add]
-        rw [hM, hP]
-        simp only [leHex]
-        generalize 2 ^ (8 * (mb - (idx + 1))) = M
-        generalize 2 ^ (8 * idx) = P
-        generalize leHex C' = L
-        rw [Nat.mod_mul]
+    intro C hk hC idx value byte hval
+    match C, hk, hC with
+    | [], _, _ => simp [intHexLoop_x, leHex]
+    | [c], _, hC =>
+      obtain ⟨h1, h2, h3, h4, h5⟩ := isHexDigit_facts c (hC c (List.mem_cons_self ..))
+      simp only [List.cons_append, List.nil_append]
+      rw [intHexLoop]
+      simp only [if_false, h1, h2, h3, or_self, h4, Option.getD_some, Bool.false_eq_true]
+      rw [intHexLoop_x_odd, store_byte n value idx (hv c) hval (by omega)]
+      simp [leHex]
+    | c0 :: c1 :: C', hk, hC =>
+      obtain ⟨a1, a2, a3, a4, a5⟩ := isHexDigit_facts c0 (hC c0 (List.mem_cons_self ..))
+      obtain ⟨b1, b2, b3, b4, b5⟩ := isHexDigit_facts c1 (hC c1 (List.mem_cons_of_mem _ (List.mem_cons_self ..)))
+      simp only [List.cons_append]
+      rw [intHexLoop]
+      simp only [if_false, a1, a2, a3, or_self, a4, Option.getD_some, Bool.false_eq_true]
+      rw [intHexLoop]
+      simp only [if_false, b1, b2, b3, or_self, b4, Option.getD_some, if_true]
+      have hbyte : hv c0 + hv c1 * 16 < 256 := by omega
+      rw [store_byte n value idx _ hval hbyte]
+      have hP : (2 : Nat) ^ (8 * (idx + 1)) = 2 ^ (8 * idx) * 256 := by
+        rw [show 8 * (idx + 1) = 8 * idx + 8 by omega, Nat.pow_add]
+      have hval' : value + (hv c0 + hv c1 * 16) % 2 ^ (n - 8 * idx) * 2 ^ (8 * idx) < 2 ^ (8 * (idx + 1)) := by
+        rw [hP]
+        have : (hv c0 + hv c1 * 16) % 2 ^ (n - 8 * idx) ≤ hv c0 + hv c1 * 16 := Nat.mod_le _ _
+        generalize (hv c0 + hv c1 * 16) % 2 ^ (n - 8 * idx) = r at *
+        generalize 2 ^ (8 * idx) = P at *
+        nlinarith
+      rw [ih C' (by simp at hk; omega) (fun c hc => hC c (List.mem_cons_of_mem _ (List.mem_cons_of_mem _ hc)))
+        (idx + 1) _ _ hval']
+      congr 1
+      rw [hP]
+      simp only [leHex]
+      generalize leHex C' = L
+      generalize 2 ^ (8 * idx) = P
+      obtain ⟨m, hm⟩ : ∃ m, m = n - 8 * idx := ⟨_, rfl⟩
+      rw [show n - 8 * (idx + 1) = m - 8 by omega, ← hm]
+      by_cases h8 : 8 ≤ m
+      · have hM : (2 : Nat) ^ m = 256 * 2 ^ (m - 8) := by
+          rw [show m = 8 + (m - 8) by omega, Nat.pow_add, show 8 + (m - 8) - 8 = m - 8 by omega]
+        have hMpos : 0 < 2 ^ (m - 8) := Nat.two_pow_pos _
+        rw [hM]
+        generalize 2 ^ (m - 8) = M at *
+        have e0 : (hv c0 + 16 * (hv c1 + 16 * L)) % (256 * M)
+            = (hv c0 + 16 * (hv c1 + 16 * L)) % 256 + 256 * ((hv c0 + 16 * (hv c1 + 16 * L)) / 256 % M) := Nat.mod_mul
         have e1 : (hv c0 + 16 * (hv c1 + 16 * L)) % 256 = hv c0 + hv c1 * 16 := by omega
         have e2 : (hv c0 + 16 * (hv c1 + 16 * L)) / 256 = L := by omega
-        rw [e1, e2]
+        have e3 : (hv c0 + hv c1 * 16) % (256 * M) = hv c0 + hv c1 * 16 := Nat.mod_eq_of_lt (by nlinarith)
+        rw [e0, e1, e2, e3]
         ring
+      · have hm8 : m < 8 := by omega
+        rw [show m - 8 = 0 by omega]
+        simp only [Nat.pow_zero, Nat.mod_one, Nat.zero_mul, Nat.add_zero]
+        congr 2
+        have h256 : 256 = 2 ^ m * 2 ^ (8 - m) := by
+          rw [← Nat.pow_add, show m + (8 - m) = 8 by omega]
+        have hsplit : hv c0 + 16 * (hv c1 + 16 * L) = (hv c0 + hv c1 * 16) + 2 ^ m * (2 ^ (8 - m) * L) := by
+          rw [← Nat.mul_assoc, ← h256]; ring
+        rw [hsplit, Nat.add_mul_mod_self_left]
 
 theorem leHex_append_singleton (A : List Char) (c : Char) : leHex (A ++ [c]) = leHex A + 16 ^ A.length * hv c := by
   induction A with
@@ -332,23 +288,32 @@ theorem hexStrVal_eq : ∀ (hs : List Char) (acc : Nat), (∀ c ∈ hs, isHexDig
     simp only [List.length_cons, List.length_reverse]
     congr 1; ring
 
-/-- **parsing an unsigned hexadecimal digit string** `0x…` of ANY length into a width that is a whole number of
-    bytes: the value of the digit string reduced mod 2^nbits. -/
-theorem integerParse_hex (n : Nat) (hs : List Char) (V : Nat) (h8 : 8 ∣ n) (hne : hs ≠ [])
+theorem negN_mod (n a : Nat) : negN n (a % 2 ^ n) = negN n a := by
+  unfold negN; rw [Nat.mod_mod]
+
+theorem negN_lt (n a : Nat) : negN n a < 2 ^ n := Nat.mod_lt _ (Nat.two_pow_pos n)
+
+/-- the scanner on `[sign]0x<digits>`: value of the digit string mod 2^nbits, then the sign part. -/
+theorem intHexLoop_text (n : Nat) (hs : List Char) (V : Nat) (tail : List Char)
     (hh : ∀ c ∈ hs, isHexDigit c = true) (hV : hexStrVal? hs 0 = some V) :
-    integerParse n ('0' :: 'x' :: hs) = some (V % 2 ^ n) := by
-  obtain ⟨j, rfl⟩ := h8
+    intHexLoop n ((n + 7) / 8) (hs.reverse ++ 'x' :: tail) 0 0 false 0 = hexTail n tail (V % 2 ^ n) := by
   rw [hexStrVal_eq hs 0 hh] at hV
   simp only [Nat.zero_mul, Nat.zero_add, Option.some.injEq] at hV
+  rw [intHexLoop_general n tail hs.reverse.length hs.reverse (Nat.le_refl _)
+    (fun c hc => hh c (List.mem_reverse.mp hc)) 0 0 0 (by simp)]
+  simp [hV]
+
+/-- **parsing an unsigned hexadecimal digit string** `0x…` of ANY length into ANY width: the value of the digit
+    string reduced mod 2^nbits. -/
+theorem integerParse_hex (n : Nat) (hs : List Char) (V : Nat) (hne : hs ≠ [])
+    (hh : ∀ c ∈ hs, isHexDigit c = true) (hV : hexStrVal? hs 0 = some V) :
+    integerParse n ('0' :: 'x' :: hs) = some (V % 2 ^ n) := by
   unfold integerParse
   rw [integerForm_toHex hs hne hh]
   simp only
-  have hrev : ('0' :: 'x' :: hs).reverse = hs.reverse ++ ['x', '0'] := by simp
-  rw [hrev, show 8 * j / 8 = j by omega]
-  rw [intHexLoop_general (8 * j) j hs.reverse.length hs.reverse (Nat.le_refl _)
-    (fun c hc => hh c (List.mem_reverse.mp hc)) 0 0 0 (Nat.zero_le _) (by simp)]
-  simp only [Nat.zero_add, Nat.sub_zero, Nat.mul_zero, Nat.pow_zero, Nat.mul_one, hV]
-  simp
+  have hrev : ('0' :: 'x' :: hs).reverse = hs.reverse ++ 'x' :: ['0'] := by simp
+  rw [hrev, intHexLoop_text n hs V ['0'] hh hV]
+  simp [hexTail]
 
 /-- the `0x…` text of `to_hex` (integer, cfloat, fixpnt: one nibble loop) is lossless: its digits read back as the
     encoding — every width. -/
@@ -362,5 +327,21 @@ theorem toHex_lossless (n v : Nat) (hn : 0 < n) (hv : v < 2 ^ n) :
     have h2 : (2 : Nat) ^ (4 * (1 + (n - 1) / 4)) = 16 ^ (1 + (n - 1) / 4) := by rw [Nat.pow_mul]
     omega
   simp [Nat.mod_eq_of_lt hpow]
+
+/-- **integer hex round trip**: `parse(to_hex(x)) = x` for EVERY width (a whole number of bytes or not). -/
+theorem integerParse_toHex (n v : Nat) (hn : 0 < n) (hv : v < 2 ^ n) :
+    integerParse n (integerToHex n v) = some v := by
+  have hl := toHex_lossless n v hn hv
+  unfold integerToHex at hl ⊢
+  simp only [List.cons_append, List.nil_append, List.drop_succ_cons, List.drop_zero] at hl ⊢
+  have hH : ∀ c ∈ (hexDigits (v % 2 ^ n) (1 + (n - 1) / 4)).map hexUpperChar, isHexDigit c = true := by
+    intro c hc
+    obtain ⟨d, hd, rfl⟩ := List.mem_map.mp hc
+    exact isHexDigit_hexUpperChar d (hexDigits_lt _ _ d hd)
+  have hne : (hexDigits (v % 2 ^ n) (1 + (n - 1) / 4)).map hexUpperChar ≠ [] := by
+    intro h
+    have := congrArg List.length h
+    simp [length_hexDigits] at this
+  rw [integerParse_hex n _ v hne hH hl, Nat.mod_eq_of_lt hv]
 
 end UVerif.Text
